@@ -185,6 +185,14 @@ let run_trie_ops (prefix : string) (v : variant) (built : trie) (ops : string li
         match load v (firstn_int k b) with Exc _ -> () | _ -> bad := string_of_int k :: !bad
       done;
       pr' "truncall %d %s" size (comma !bad)
+    | ["PIPELOAD"] ->      (* how the bytes reach load (a regular file, a pipe) does not occur in the model *)
+      (match load v (save v !cur) with
+       | Ok p -> pr' "pipeload %s" (if save v p = save v !cur then "same" else "differs")
+       | r -> pr' "pipeload %s" (exc_or_fault r))
+    | ["RELOADHERE"] ->    (* load (save P) = P (C06_load_save): the object holds the same structure, the iterator slots stay *)
+      (match load v (save v !cur) with
+       | Ok p -> cur := p; pr' "reloadhere ok"
+       | r -> pr' "reloadhere %s" (exc_or_fault r))
     | ["SAVEOVER"; _] ->  (* the previous content of the target does not matter: the file is replaced *)
       (match save_dev v !cur (File [N0]) [] true with
        | Ok (cnt, b) -> pr' "saveover ret:%s size:%d same:1" (string_of_n cnt) (List.length b)
